@@ -38,6 +38,8 @@ def run(ctx):
     r154(ctx, sch)
     r155(ctx, cen)
     r156(ctx, core)
+    r157(ctx, core)
+    r158(ctx, core)
     from . import callsigs as _cs
     _cs.general_rules(ctx, 'R15', ['core.read_col', 'core.read_row_group_arrays', 'core.read_data_page', 'core.read_rep', 'core.read_def',
                                    'schema._is_list_like', 'schema._is_map_like', 'schema.SchemaHelper'])
@@ -200,3 +202,58 @@ def _blocks(stmts):
                 yield from _blocks(sub)
         for h in getattr(st, 'handlers', []) or []:
             yield from _blocks(h.body)
+
+
+def r157(ctx, core, rule='R15.7'):
+    """v2 pages: the definition levels of a repeated column are decoded whenever the column is repeated - record assembly
+    needs them also for a page in which every value is present (num_nulls == 0); the block that decodes them is not
+    conditional on the null count alone"""
+    f = core.func('read_data_page_v2')
+    blocks = [st for st in iter_child_stmts(f.body) if isinstance(st, ast.If) and 'max_def' in norm(st.test)
+              and any(isinstance(a_, ast.Assign) and norm(a_.targets[0]) == 'defi' for a_ in ast.walk(st))]
+    if len(blocks) != 1:
+        raise AnalysisError('R15.7: the block that decodes the definition levels of a v2 page was not found')
+    t = blocks[0].test
+    # the test holds for a repeated column whatever num_nulls is: evaluate it with num_nulls = 0, max_def = max_rep = 1
+    conj = t.values if isinstance(t, ast.BoolOp) and isinstance(t.op, ast.And) else [t]
+    ok = True
+    for c in conj:
+        names = {norm(x) for x in ast.walk(c) if isinstance(x, (ast.Name, ast.Attribute))}
+        if any(n_.endswith('num_nulls') for n_ in names) and 'max_rep' not in names:
+            ok = False
+    ctx.ob(rule, 'core.read_data_page_v2:levels-of-a-repeated-column-read-whatever-the-null-count', ok,
+           '`if %s:` - with num_nulls == 0 the levels of a LIST / MAP column stay unread and assembly fails on the unbound '
+           'name' % norm(t), core.loc(blocks[0]))
+
+
+def r158(ctx, core, rule='R15.8'):
+    """v2 pages: every arm of the value dispatch that a repeated column can reach either assembles records (calls
+    _assemble_objects under `max_rep`) or refuses it; an arm that scatters values with the level-length null mask as if
+    the column were flat fails (or mis-assigns) for LIST / MAP columns.  The PLAIN arm does so: known finding K15b."""
+    f = core.func('read_data_page_v2')
+    arms = []
+    for st in iter_child_stmts(f.body):
+        if isinstance(st, ast.If) and 'data_header2.encoding' in norm(st.test) and st in f.body:
+            x = st
+            while isinstance(x, ast.If):
+                arms.append(x)
+                x = x.orelse[0] if len(x.orelse) == 1 and isinstance(x.orelse[0], ast.If) else None
+    if not arms:
+        raise AnalysisError('R15.8: value dispatch of read_data_page_v2 not found')
+    n = 0
+    for a_ in arms:
+        t = norm(a_.test)
+        if 'max_rep == 0' in t or 'into' in t.split(' and ')[0:1] or 'use_cat' in t or ' not in ' in t:
+            continue        # arms that exclude repeated columns by their own test (in-place / category outputs)
+        enc = 'PLAIN' if t.endswith('Encoding.PLAIN') else 'DICTIONARY' if 'DICTIONARY' in t else 'DELTA' if 'DELTA' in t else None
+        if enc is None:
+            continue
+        n += 1
+        body = ast.Module(body=a_.body, type_ignores=[])
+        assembles = any(isinstance(c, ast.Call) and (callee(c) or '').endswith('_assemble_objects') for c in ast.walk(body))
+        refuses = any(isinstance(x, ast.If) and 'max_rep' in norm(x.test) and any(isinstance(r, ast.Raise) for r in x.body) for x in ast.walk(body))
+        if enc == 'DELTA':
+            continue        # integers only: a repeated delta column is refused by the dtype test upstream (object output)
+        ctx.ob(rule, 'core.read_data_page_v2:%s-v2-page-of-a-repeated-column-is-assembled' % enc.lower().replace('dictionary', 'dictionary'),
+               assembles or refuses, 'arm `%s` neither calls _assemble_objects nor refuses repeated columns' % t[:70], core.loc(a_))
+    ctx.floor(rule, 'value arms of the v2 reader open to repeated columns', n, 2)
